@@ -16,13 +16,13 @@ Notation Matc := (Mat (T:=T)).
 Variable d : nat.
 
 (* ------------------------------------------------------------------ _derivative_integral *)
-(* np.abs(x) < thr *)
+(* np.abs(x) < thr   (the masks of the source are np.abs(x*dt) < thr: dimensionless) *)
 Definition ltabs (x thr : T) : B := ogt Op thr (oabs Op x).
 
-(* tmp2 = e^{i x dt}/x - 1/x,   tmp2[mask_EdE] = 1j*dt *)
+(* tmp2 = e^{i x dt}/x - 1/x,   tmp2[mask_EdE] = 1j*dt,   mask_EdE = np.abs(EdE*dt) < thr *)
 Definition di_tmp2 (thr x dt : T) : Cc :=
   let th := omul Op x dt in
-  cite Op (ltabs x thr) (o0 Op, dt)
+  cite Op (ltabs th thr) (o0 Op, dt)
     (osub Op (odiv Op (ocos Op th) x) (odiv Op (o1 Op) x), odiv Op (osin Op th) x).
 
 (* tmp1 = (-1j*dt) e^{i x dt}/x + tmp2/x,   tmp1[mask_EdE] = dt**2/2     (case Omega_pq == 0) *)
@@ -31,7 +31,7 @@ Definition di_tmp1 (thr x dt : T) : Cc :=
   let t2 := di_tmp2 thr x dt in
   let cx := odiv Op (ocos Op th) x in
   let sx := odiv Op (osin Op th) x in
-  cite Op (ltabs x thr) (odiv Op (omul Op dt dt) (o2 Op), o0 Op)
+  cite Op (ltabs th thr) (odiv Op (omul Op dt dt) (o2 Op), o0 Op)
     (oadd Op (omul Op sx dt) (odiv Op (fst t2) x),
      oadd Op (oneg Op (omul Op cx dt)) (odiv Op (snd t2) x)).
 
@@ -39,7 +39,7 @@ Definition di_tmp1 (thr x dt : T) : Cc :=
 Definition di_nz (thr thr_y x dEpq dt : T) : Cc :=
   let y := oadd Op x dEpq in
   let th := omul Op y dt in
-  let t1 := cite Op (ltabs y thr_y) (o0 Op, oneg Op dt)
+  let t1 := cite Op (ltabs th thr_y) (o0 Op, oneg Op dt)
               (odiv Op (osub Op (o1 Op) (ocos Op th)) y, odiv Op (oneg Op (osin Op th)) y) in
   cdivr Op (cadd Op t1 (di_tmp2 thr x dt)) dEpq.
 
@@ -48,7 +48,7 @@ Definition deriv_integral_entry (th3 : T * T * T) (w : T) (ev : list T) (dt : T)
   let '(thr_dE, thr_x, thr_y) := th3 in      (* masks on dE, EdE, EdEdE *)
   let dEpq := osub Op (vg Op ev p) (vg Op ev q) in
   let x := oadd Op w (osub Op (vg Op ev m) (vg Op ev n)) in
-  cite Op (ltabs dEpq thr_dE) (di_tmp1 thr_x x dt) (di_nz thr_x thr_y x dEpq dt).
+  cite Op (ltabs (omul Op dEpq dt) thr_dE) (di_tmp1 thr_x x dt) (di_nz thr_x thr_y x dEpq dt).
 
 Definition Arr4 : Type := list (list (list (list Cc))).
 Definition a4get (A : Arr4) (p q m n : nat) : Cc := nth n (nth m (nth q (nth p A []) []) []) (c0 Op).
@@ -57,34 +57,35 @@ Definition deriv_integral (th3 : T * T * T) (w : T) (ev : list T) (dt : T) : Arr
     deriv_integral_entry th3 w ev dt p q m n)))).
 
 (* the real denominators the code divides by (all of them are guarded by a mask) *)
-Definition di_denoms (th3 : T * T * T) (w : T) (ev : list T) (p q m n : nat) : list (B * T) :=
+Definition di_denoms (th3 : T * T * T) (w : T) (ev : list T) (dt : T) (p q m n : nat) : list (B * T) :=
   let '(thr_dE, thr_x, thr_y) := th3 in
   let dEpq := osub Op (vg Op ev p) (vg Op ev q) in
   let x := oadd Op w (osub Op (vg Op ev m) (vg Op ev n)) in
-  [(ltabs x thr_x, x); (ltabs (oadd Op x dEpq) thr_y, oadd Op x dEpq); (ltabs dEpq thr_dE, dEpq)].
+  [(ltabs (omul Op x dt) thr_x, x); (ltabs (omul Op (oadd Op x dEpq) dt) thr_y, oadd Op x dEpq);
+   (ltabs (omul Op dEpq dt) thr_dE, dEpq)].
 
 (* ------------------------------------------------------------------ _liouville_derivative *)
 (* 1j*(1 - e^{i Om dt})/Om *)
 Definition amat_entry (dt Om : T) : Cc :=
   let th := omul Op Om dt in
   (odiv Op (osin Op th) Om, odiv Op (osub Op (o1 Op) (ocos Op th)) Om).
-(* mask = np.eye(d): only the diagonal gets the limit value dt *)
-Definition amat (ev : list T) (dt : T) : Matc :=
-  mbuild d d (fun i j => if Nat.eqb i j then (dt, o0 Op)
-                         else amat_entry dt (osub Op (vg Op ev i) (vg Op ev j))).
-(* the denominators of A_mat outside the mask *)
-Definition amat_denoms (ev : list T) : list T :=
-  concat (build d (fun i => concat (build d (fun j =>
-    if Nat.eqb i j then [] else [osub Op (vg Op ev i) (vg Op ev j)])))).
+(* mask = np.abs(omega_diff*dt) < thr: (numerically) degenerate pairs -- the diagonal included -- get the limit value dt *)
+Definition amat (thr : T) (ev : list T) (dt : T) : Matc :=
+  mbuild d d (fun i j => let Om := osub Op (vg Op ev i) (vg Op ev j) in
+                         cite Op (ltabs (omul Op Om dt) thr) (dt, o0 Op) (amat_entry dt Om)).
+(* (mask, denominator) of every entry of A_mat *)
+Definition amat_denoms (thr : T) (ev : list T) (dt : T) : list (B * T) :=
+  concat (build d (fun i => build d (fun j =>
+    let Om := osub Op (vg Op ev i) (vg Op ev j) in (ltabs (omul Op Om dt) thr, Om)))).
 
 Definition hadamard (A Bm : Matc) : Matc :=
   mbuild d d (fun i j => cmul Op (mget Op A i j) (mget Op Bm i j)).
 
 (* U_deriv[h, g] = -1j * (Q_{g+1} Q_g^dagger V_g (A_g o Cbar_h^g) V_g^dagger) *)
-Definition u_deriv (Qg Qg1 V : Matc) (ev : list T) (dt : T) (Cbar : Matc) : Matc :=
+Definition u_deriv (thr : T) (Qg Qg1 V : Matc) (ev : list T) (dt : T) (Cbar : Matc) : Matc :=
   let P := mmul Op d Qg1 (madj Op d Qg) in
   mscal Op d (cneg Op (ci Op))
-    (mmul Op d (mmul Op d (mmul Op d P V) (hadamard (amat ev dt) Cbar)) (madj Op d V)).
+    (mmul Op d (mmul Op d (mmul Op d P V) (hadamard (amat thr ev dt) Cbar)) (madj Op d V)).
 
 (* U_deriv_transformed[h, g] = Q_{g+1}^dagger U_deriv[h, g] Q_g *)
 Definition u_deriv_transformed (Qg Qg1 UD : Matc) : Matc :=
@@ -111,14 +112,8 @@ Definition M2_entry (DI : nat -> nat -> nat -> nat -> Cc) (Cb NT : Matc) (r c : 
   csumn Op d (fun x => cmul Op (cmul Op (mget Op NT r x) (mget Op Cb x c)) (DI x c r x)).
 Definition Mgen_entry DI (Cb NT : Matc) (r c : nat) : Cc :=
   csub Op (M1_entry DI Cb NT r c) (M2_entry DI Cb NT r c).
-(* index reversal [::-1] on the two diagonal entries *)
-Definition flip01 (r : nat) : nat := match r with O => 1 | S _ => 0 end.
-(* if d == 2:  M[..., mask] -= M[..., mask][..., ::-1];  M[..., ~mask] *= 2 *)
-Definition Mshort_entry DI (Cb NT : Matc) (r c : nat) : Cc :=
-  if Nat.eqb r c then csub Op (M1_entry DI Cb NT r r) (M1_entry DI Cb NT (flip01 r) (flip01 r))
-  else cscal Op (o2 Op) (M1_entry DI Cb NT r c).
-Definition M_entry DI (Cb NT : Matc) (r c : nat) : Cc :=
-  if Nat.eqb d 2 then Mshort_entry DI Cb NT r c else Mgen_entry DI Cb NT r c.
+(* M -= ... : the general expression for every d (the d == 2 shortcut was removed by fix 083da5e) *)
+Definition M_entry DI (Cb NT : Matc) (r c : nat) : Cc := Mgen_entry DI Cb NT r c.
 
 (* 'o,jnk,ahokn->ajho' with 1j*basis_transformed: phase * sum_{nk} (i BT_j[n,k]) M[k,n] *)
 Definition step_deriv_entry (phase : Cc) (BTj Mm : Matc) : Cc :=
@@ -166,10 +161,10 @@ Definition noise_steps (G nj no : nat) (phases : list (list Cc)) (BTs ints : lis
 (* --- one control operator C --- *)
 (* c_opers_transformed[g] = V_g^dagger C V_g *)
 Definition ctrl_CB (Vs : list Matc) (Cm : Matc) : list Matc := map (fun V => transform_by_unitary Op d V Cm) Vs.
-Definition ctrl_UDT (evs : list (list T)) (Vs Qs : list Matc) (dts : list T) (CBs : list Matc) : list Matc :=
+Definition ctrl_UDT (thr_A : T) (evs : list (list T)) (Vs Qs : list Matc) (dts : list T) (CBs : list Matc) : list Matc :=
   build (length dts) (fun g =>
     let Qg := nthm Qs g in let Qg1 := nthm Qs (S g) in
-    u_deriv_transformed Qg Qg1 (u_deriv Qg Qg1 (nthm Vs g) (nthv evs g) (vg Op dts g) (nthm CBs g))).
+    u_deriv_transformed Qg Qg1 (u_deriv thr_A Qg Qg1 (nthm Vs g) (nthv evs g) (vg Op dts g) (nthm CBs g))).
 (* liouville_deriv[t][s][j][k] for this control operator; t = 0 .. G-2 (propagator Q_{t+1}), s = 0 .. G-1;
    propagators_deriv[t, s] = Q_{t+1} U_deriv_transformed[s] for s <= t, zero otherwise *)
 Definition ctrl_LD (G nj : nat) (Qs UDT : list Matc) (X : list (list (list Matc))) : list (list (list (list T))) :=
@@ -217,9 +212,9 @@ Definition pair_ffd (G nj no : nat) (B_a : list (list Cc)) (PDv : list (list (li
     ffd_entry nj (fun k => nth2 (c0 Op) B_a k o) (fun k => nth3 (c0 Op) PDv s o k))).
 
 (* per control operator: (c_opers_transformed[g], liouville_deriv[t][s][j][k]) *)
-Definition ctrl_data (G nj : nat) (evs : list (list T)) (Vs Qs : list Matc) (dts : list T)
+Definition ctrl_data (thr_A : T) (G nj : nat) (evs : list (list T)) (Vs Qs : list Matc) (dts : list T)
            (X : list (list (list Matc))) (Cm : Matc) : list Matc * list (list (list (list T))) :=
-  let CBs := ctrl_CB Vs Cm in (CBs, ctrl_LD G nj Qs (ctrl_UDT evs Vs Qs dts CBs) X).
+  let CBs := ctrl_CB Vs Cm in (CBs, ctrl_LD G nj Qs (ctrl_UDT thr_A evs Vs Qs dts CBs) X).
 (* per pair, from the shared data, the noise operator with its sensitivities and the control data: [s][o][k] *)
 Definition pair_of (G nj no : nat) (phases : list (list Cc)) (BTs ints : list (list Matc)) (DIs : list (list Arr4))
            (Ls : list (list (list T))) (Vs : list Matc) (N : Matc) (s_row : list T)
@@ -231,7 +226,7 @@ Definition pair_of (G nj no : nat) (phases : list (list Cc)) (BTs ints : list (l
 
 (* calculate_derivative_of_control_matrix_from_scratch: result [a][h][s][o][k]
    (the package's axis order is [h, o, s, a, k]); ncd[a][h][g] *)
-Definition ctrlmat_deriv (thr : T) (thr_di : T * T * T) (evs : list (list T)) (Vs Qs : list Matc) (omega : list T)
+Definition ctrlmat_deriv (thr : T) (thr_di : T * T * T) (thr_A : T) (evs : list (list T)) (Vs Qs : list Matc) (omega : list T)
            (basis nopers copers : list Matc) (ncoeffs : list (list T)) (dts ts : list T)
            (use_ncd : bool) (ncd : list (list (list T))) : list (list (list (list (list Cc)))) :=
   let G := length dts in let nj := length basis in let no := length omega in
@@ -240,7 +235,7 @@ Definition ctrlmat_deriv (thr : T) (thr_di : T * T * T) (evs : list (list T)) (V
   let ints := sh_ints thr evs dts omega in
   let DIs := sh_DIs thr_di evs dts omega in
   let Ls := sh_Ls Qs basis in
-  let cdata := map (ctrl_data G nj evs Vs Qs dts (sh_X Qs basis G)) copers in
+  let cdata := map (ctrl_data thr_A G nj evs Vs Qs dts (sh_X Qs basis G)) copers in
   build (length nopers) (fun a => build (length copers) (fun h =>
     pair_of G nj no phases BTs ints DIs Ls Vs (nthm nopers a) (nthv ncoeffs a) (nth h cdata ([], []))
             use_ncd (nth2 [] ncd a h))).
@@ -301,9 +296,8 @@ Definition bcast_ok (shape target : list nat) : bool :=
 Definition parse_spectrum_accepts (shape : list nat) (n_idx n_omega : nat) : bool :=
   Nat.leb (List.length shape) 3 && Nat.leb 1 (List.length shape) &&
   bcast_ok shape (repeat n_idx (List.length shape - 1) ++ [n_omega]).
-(* numeric.infidelity parses with idx = the selected noise operators;
-   gradient.infidelity_derivative parses with range(len(pulse.n_opers)) = ALL noise operators *)
+(* numeric.infidelity and (since fix 1090e57) gradient.infidelity_derivative parse with idx = the selected noise operators *)
 Definition infidelity_accepts (shape : list nat) (n_selected n_all n_omega : nat) : bool :=
   parse_spectrum_accepts shape n_selected n_omega.
 Definition infidelity_derivative_accepts (shape : list nat) (n_selected n_all n_omega : nat) : bool :=
-  parse_spectrum_accepts shape n_all n_omega.
+  parse_spectrum_accepts shape n_selected n_omega.
